@@ -211,6 +211,9 @@ func (f *n3lFam) buildHeader(h neoHdrSpec) ([]byte, *neo3legacy.NeoBlockHeader, 
 	bh.SetIndex(h.index)
 	bh.SetTimeStamp(1600000000000 + uint64(h.index))
 	bh.SetNextConsensus(next)
+	if h.link && len(h.prev) == 32 {
+		bh.SetPrevHash(helper.UInt256FromBytes(h.prev))
+	}
 	bh.Witness = &tx.Witness{InvocationScript: []byte{}, VerificationScript: n3lScript(wd)}
 	nh := &neo3legacy.NeoBlockHeader{Header: bh}
 	msg, err := nh.GetMessage(n3lMagic)
@@ -253,14 +256,14 @@ func (f *n3lFam) Exec(r *hx.Run, op []string) string {
 				continue
 			}
 			q := strings.Split(tok, "/")
-			if len(q) != 4 {
+			if len(q) != 4 && !(len(q) == 5 && q[4] == "p") {
 				return "bad-op"
 			}
 			idx, err := strconv.ParseUint(q[0], 10, 32)
 			if err != nil {
 				return "bad-op"
 			}
-			specs = append(specs, neoHdrSpec{index: uint32(idx), next: q[1], wscript: q[2], sigs: q[3]})
+			specs = append(specs, neoHdrSpec{index: uint32(idx), next: q[1], wscript: q[2], sigs: q[3], link: len(q) == 5})
 		}
 		before, had := f.tracked()
 		p := &hscommon.SyncBlockHeaderParam{ChainID: n3lChainID}
@@ -270,11 +273,14 @@ func (f *n3lFam) Exec(r *hx.Run, op []string) string {
 			wd  neoDesc
 		}
 		var bs []built
+		var prevHash []byte
 		for _, s := range specs {
+			s.prev = prevHash
 			raw, nh, msg, wd, ok := f.buildHeader(s)
 			if !ok {
 				return "bad-op"
 			}
+			prevHash = append([]byte{}, nh.GetHash().ToByteArray()...)
 			p.Headers = append(p.Headers, raw)
 			bs = append(bs, built{nh, msg, wd})
 		}
